@@ -115,6 +115,7 @@ func GenFlowCase(g *mon.RNG, proto string, o GenOpts) *FlowCase {
 	sameMsg := g.Chance(1, 3)
 	var sets []Set
 	hdr := func() []uint32 { return []uint32{uint32(g.U32()), uint32(g.U32()), uint32(g.U32()), uint32(g.U32())} }
+	descPre := ""
 	emit := func(sets []Set, exp [][]ExpField) {
 		h := hdr()
 		b, eh := EncodeFlow(proto, h, sets)
@@ -127,14 +128,27 @@ func GenFlowCase(g *mon.RNG, proto string, o GenOpts) *FlowCase {
 	if sameMsg {
 		sets = tplSets(c.Templates)
 	} else {
-		emit(tplSets(c.Templates), nil)
+		ann := tplSets(c.Templates)
+		if g.Chance(1, 4) {
+			// the announcing message also carries a data set of a template id this exporter never announced (a
+			// collector that was down for the exporter's earlier announcement sees this all the time): the decoder
+			// reports it, and the templates announced next to it are announced nevertheless
+			unk := Set{Kind: SetRaw, SetID: uint16(60000 + g.Intn(1000)), RawBody: g.Bytes(8)}
+			if g.Bool() {
+				ann = append([]Set{unk}, ann...)
+			} else {
+				ann = append(ann, unk)
+			}
+			descPre = "|ANN+UNKNOWN"
+		}
+		emit(ann, nil)
 	}
 	nMsg := 1
 	if g.Chance(1, 4) {
 		nMsg = 2
 	}
 	c.MinRec = 1 << 30
-	desc := proto
+	desc := proto + descPre
 	for mi := 0; mi < nMsg; mi++ {
 		budget := 1400
 		if g.Chance(1, 10) {
